@@ -174,9 +174,25 @@ class Repo:
             from . import canon as _canon
 
             sigs = _canon.Sigs()
+            sigs.modules = set()
             for rel, src, tree in parsed:
+                if rel.startswith(PKG):
+                    mn = rel[:-3].replace(os.sep, ".")
+                    sigs.modules.add(mn[: -len(".__init__")] if mn.endswith(".__init__") else mn)
                 if rel.startswith(PKG) and not rel.startswith(PKG + "/resources"):
                     sigs.add_tree(tree)
+            sigs.base_imports = None
+            try:
+                import json as _json
+
+                with open(os.path.join(os.path.dirname(os.path.abspath(__file__)), "baseline_symbols.json")) as f:
+                    bi = {}
+                    for row in _json.load(f):
+                        if isinstance(row[1], str) and row[1].startswith("import:") and row[2]:
+                            bi.setdefault(row[0], {})[row[1][7:]] = row[2][0]
+                    sigs.base_imports = bi
+            except OSError:
+                pass
         self.moved_back = []
         if INLINE:
             try:
